@@ -45,7 +45,7 @@ Init == st = InitState /\ g = GhostInit /\ last = 0 /\ hist = <<>>
 
 Step(i) ==
     LET o == Alphabet[i] IN
-    /\ OpEnabled(st, o, MaxRej, Windows, MaxReload, MaxLag)
+    /\ OpEnabledLag(st, o, MaxRej, Windows, MaxReload, MaxLag)
     /\ LET x == ApplyOp(st, o) IN
        /\ st' = x.st
        /\ g' = GhostNext(g, st, o, x.out)
